@@ -235,20 +235,20 @@ Print Assumptions C04_step_no_abort_no_native.
    keep ninv; call1 / try1 / call0 / rb1 do so when the nested run does ([reenter_ok]).
    The stdlib natives __min, __max, __sort are not [covered_native]: they are in C04_native_call_ok0. *)
 Theorem C04_native_call_ok : forall F P reenter start,
-  code_ok P start -> reenter_ok P reenter start -> (0 < code_len P)%N ->
+  code_ok P start -> reenter_ok P reenter start (fun _ => False) -> (0 < code_len P)%N ->
   forall h s, ninv P start s ->
     (forall n, find_native h all_natives = Some n -> covered_native n = true) ->
-    nres_ok P start s (call_native F P reenter h s).
-Proof. exact call_native_ok. Qed.
+    nres_ok P start (fun _ => False) s (call_native F P reenter h s).
+Proof. intros F P reenter start. exact (call_native_ok F P reenter start (fun _ => False)). Qed.
 Print Assumptions C04_native_call_ok.
 
 (* EVERY native (also __min, __max, __sort): no abort, and the state left satisfies vm_inv again (for these three
    the heap is not shown to stay acyclic: the row / table they build holds values whose rank after the callbacks
    is not known) *)
 Theorem C04_native_call_ok0 : forall F P reenter start,
-  code_ok P start -> reenter_ok P reenter start -> (0 < code_len P)%N ->
-  forall h s, ninv P start s -> nres_ok0 P start s (call_native F P reenter h s).
-Proof. exact call_native_ok0. Qed.
+  code_ok P start -> reenter_ok P reenter start (fun _ => False) -> (0 < code_len P)%N ->
+  forall h s, ninv P start s -> nres_ok0 P start (fun _ => False) s (call_native F P reenter h s).
+Proof. intros F P reenter start. exact (call_native_ok0 F P reenter start (fun _ => False)). Qed.
 Print Assumptions C04_native_call_ok0.
 
 (* run_no_abort, one step, ALL 47 opcodes and every native, under [step_pre3] =
@@ -257,10 +257,10 @@ Print Assumptions C04_native_call_ok0.
    [side]; nested runs (natives that call back) keep their contract [reenter_ok]. *)
 Theorem C04_step_no_abort :
   forall F bld P reenter start,
-    code_ok P start -> reenter_ok P reenter start ->
+    code_ok P start -> reenter_ok P reenter start (fun _ => False) ->
     forall ip0 s, step_pre3 F bld P start ip0 s ->
     forall a s', step F bld P reenter ip0 s <> SStop a s'.
-Proof. exact step_no_abort_all. Qed.
+Proof. exact step_no_abort_strict. Qed.
 Print Assumptions C04_step_no_abort.
 
 (* preservation: the state of every non-abort result satisfies vm_inv0 again and no object died; after SNext the
@@ -268,16 +268,16 @@ Print Assumptions C04_step_no_abort.
    [side], not of vm_inv: SetProperty / AppendTable can build a cycle, A-37.) *)
 Theorem C04_step_preserves :
   forall F bld P reenter start,
-    code_ok P start -> reenter_ok P reenter start ->
+    code_ok P start -> reenter_ok P reenter start (fun _ => False) ->
     forall ip0 s, step_pre3 F bld P start ip0 s ->
     res_ok P start s (step F bld P reenter ip0 s).
-Proof. exact step_preserves. Qed.
+Proof. intros F bld P reenter start. exact (step_preserves F bld P reenter start (fun _ => False)). Qed.
 Print Assumptions C04_step_preserves.
 
 (* the dispatch loop: no abort (and enough fuel) as long as every dispatched instruction meets [side] *)
 Theorem C04_loop_no_abort :
   forall F bld P reenter start,
-    code_ok P start -> reenter_ok P reenter start ->
+    code_ok P start -> reenter_ok P reenter start (fun _ => False) ->
     (forall ip s, rres_R paid (cr s) (reenter ip s)) ->
     forall fuel ip s,
       vm_inv P start s -> ipok P start ip -> sides_hold F bld P reenter ip s -> (st_rem s <= N.of_nat fuel)%N ->
@@ -285,13 +285,13 @@ Theorem C04_loop_no_abort :
       | RStop _ _ => False
       | ROk s' | RErr _ _ s' => vm_inv0 P start s' /\ length (st_heap s) <= length (st_heap s')
       end.
-Proof. exact loop_no_abort. Qed.
+Proof. exact loop_no_abort_strict. Qed.
 Print Assumptions C04_loop_no_abort.
 
 (* Vm::run from a new VM (or from the state a previous run left) *)
 Theorem C04_run_no_abort_partial : forall F bld P start budget s,
   code_ok P start ->
-  reenter_ok P (run_at F bld P false (N.of_nat budget) 129) start ->
+  reenter_ok P (run_at F bld P false (N.of_nat budget) 129) start (fun _ => False) ->
   vm_inv0 P start s ->
   (forall s1, push_frame s (mkFrame 0 0 0 None) = Some s1 ->
      sides_hold F bld P (run_at F bld P false (N.of_nat budget) 129) 0 (set_rem s1 (N.of_nat budget))) ->
@@ -356,7 +356,7 @@ Theorem C04_compiled_run_no_abort : forall (M : module) (o : options) (B : compi
   (N.of_nat (length (p_bytecode B)) < 2147483648)%N -> (N.of_nat (length (Compiler.p_data B)) < 4294967296)%N ->
   exists is, decode (p_bytecode B) = Some is /\
     forall F bld budget s,
-      reenter_ok (C15Link.to_vm B) (run_at F bld (C15Link.to_vm B) false (N.of_nat budget) 129) (wf_start is) ->
+      reenter_ok (C15Link.to_vm B) (run_at F bld (C15Link.to_vm B) false (N.of_nat budget) 129) (wf_start is) (fun _ => False) ->
       vm_inv0 (C15Link.to_vm B) (wf_start is) s ->
       (forall s1, push_frame s (mkFrame 0 0 0 None) = Some s1 ->
          sides_hold F bld (C15Link.to_vm B) (run_at F bld (C15Link.to_vm B) false (N.of_nat budget) 129) 0
